@@ -662,6 +662,10 @@ def finished : Req → Bool
   | .done .. => true
   | _ => false
 
+def unused : Req → Bytes
+  | .done _ _ u => u
+  | _ => []
+
 end Req
 
 /-- a version-1 request on the wire (`call` / `call_with_body_bytes`) -/
